@@ -28,6 +28,89 @@ def nontrivial(t):
     return None
 
 
+class Scripted:
+    """Scripted clusterer (binding B): K clusters; the trimmed training pool is predicted into `ltrim` only
+    (a fitted cluster may attract no trimmed point), resampled particles into every label of 0..K-1."""
+
+    def __init__(self, K, ltrim, n_particles):
+        self.K, self.ltrim, self.np_ = K, list(ltrim), n_particles
+        self.n_clusters_ = 0
+        self.calls = 0
+
+    def fit(self, X, w=None):
+        self.n_clusters_ = self.K
+        return self
+
+    def predict(self, X):
+        import numpy as np
+
+        self.calls += 1
+        n = len(X)
+        if n == self.np_ and self.calls % 2 == 0:  # the Resampler's call: every label occurs
+            return np.arange(n) % self.K
+        # the Trainer's call: a function of the point (duplicates get the same label), balanced over ltrim
+        rows = [np.ascontiguousarray(x, dtype=float).tobytes() for x in X]
+        rank = {r: k for k, r in enumerate(sorted(set(rows)))}
+        return np.array([self.ltrim[rank[r] % len(self.ltrim)] for r in rows])
+
+
+def _scripted_job(job):
+    core.import_repo()
+    import warnings
+
+    warnings.filterwarnings("ignore")
+    import numpy as np
+    from vlib import drivers, psrun
+
+    K, ltrim, every = job["K"], job["ltrim"], job["every"]
+    conf = dict(clustering=True, n_particles=12, cluster_every=every, target="bimodal", sample=job["kernel"])
+    rec = psrun.Recorder(2, label=job["label"])
+    np.random.seed(job["seed"])
+    s, c = drivers.build_sampler(conf, rec)
+    fake = Scripted(K, ltrim, 12)
+    s._core.trainer.clusterer = fake
+    s._core.resampler.clusterer = fake
+    rec.attach(s)
+    _, _, tr = drivers.record_run(conf, n_total=24, seed=job["seed"], label=job["label"], rec=rec, sampler=s)
+    tr["meta"]["scripted"] = dict(K=K, ltrim=list(ltrim), every=every)
+    return tr
+
+
+def scripted_part(ck):
+    """TLC's label scenarios (K, Ltrim) of MC_PSRun's `rankmodes` variant replayed through the real Trainer.run /
+    Resampler.run / Mutator.run with a scripted clusterer."""
+    import concurrent.futures as cf
+    import itertools
+    import multiprocessing as mp
+    from vlib import psrun
+
+    jobs = []
+    for K in (2, 3):
+        for r in range(1, K + 1):
+            for ltrim in itertools.combinations(range(K), r):
+                for every, kern in ((1, "tpcn"), (2, "rwm")):
+                    jobs.append(dict(K=K, ltrim=ltrim, every=every, kernel=kern, seed=140 + len(jobs) + 1000 * ck.seed,
+                                     label=f"scripted K={K} Ltrim={list(ltrim)} every={every} {kern}"))
+    with cf.ProcessPoolExecutor(max_workers=sysrun.PROCS, mp_context=mp.get_context("fork")) as ex:
+        traces = list(ex.map(_scripted_job, jobs))
+    fails, st = psrun.validate(traces)
+    for f in fails:
+        tr = traces[f["tid"] - 1]
+        for cl in f["clauses"]:
+            if psrun.CLAUSE_PROPERTY.get(cl) == "C14" or cl == "NoRaise":
+                sc = tr["meta"]["scripted"]
+                unpop = len(sc["ltrim"]) < sc["K"]
+                ck.violation(f"scripted:{cl}:" + ("unpopulated-label" if unpop else "all-populated"),
+                             f"{cl} fails at event {f['l']} ({f['ev']}) with a scripted clusterer: K={sc['K']}, trimmed pool predicted into {sc['ltrim']} only, resampled particles into all labels",
+                             {"scenario": sc, "event": tr["events"][f["l"] - 1], "label": tr["meta"]["label"]})
+    nontriv = sum(1 for t in traces if len(t["meta"]["scripted"]["ltrim"]) < t["meta"]["scripted"]["K"])
+    begins = sum(1 for t in traces for e in t["events"] if e["ev"] == "MutateBegin")
+    if begins == 0:
+        raise RuntimeError("vacuous scripted scenarios: kernel never reached")
+    ck.sample({"scripted": traces[1]["meta"]["scripted"], "MutateBegin": next((e for e in traces[1]["events"] if e["ev"] == "MutateBegin"), None)})
+    return {"scripted_scenarios": len(traces), "scripted_unpopulated_label_scenarios": nontriv, "scripted_mutate_begins": begins, "scripted_states": st["states"]}
+
+
 def main():
     ck = core.Check("C14", "model_checking")
     cfgs = [dict(clustering="TRUE", every=2, metric="ess", cap=0), dict(clustering="TRUE", every=3, metric="ess", cap=2)]
@@ -37,11 +120,13 @@ def main():
     sc, traces = sysrun.system_part(ck, "C14", jobs, nontrivial)
     cov.update(sc)
     cov.update(sysrun.selftest(traces[0]))
+    sp = scripted_part(ck)
+    cov.update(sp)
     cov.update({
-        "traces_validated_against_impl": sc["system_runs"],
-        "evaluations": sc["system_events_validated"],
-        "distinct_nontrivial": sc["system_nontrivial"],
-        "rule": "a run is non-trivial when the kernel received at least two proposal modes in some iteration; every Train / Resample / MutateBegin event validated by TLC",
+        "traces_validated_against_impl": sc["system_runs"] + sp["scripted_scenarios"],
+        "evaluations": sc["system_events_validated"] + sp["scripted_states"],
+        "distinct_nontrivial": sc["system_nontrivial"] + sp["scripted_unpopulated_label_scenarios"],
+        "rule": "recorded runs: non-trivial when the kernel received at least two proposal modes in some iteration; scripted scenarios (K, Ltrim): non-trivial when a fitted cluster attracts no trimmed training point; every Train / Resample / MutateBegin event validated by TLC",
         "exhaustive": False,
     })
     ck.finish(cov)
